@@ -32,10 +32,10 @@ import (
 // lcFault fails one I/O operation: the k-th Read ('r') or Write ('w') of the conn-th connection, or the
 // k-th dial attempt ('d'). rep > 0: the same fault also applies to the next rep connections / dials.
 type lcFault struct {
-	dir    byte   // 'd' | 'r' | 'w'
-	conn   int    // connection index (for 'd': dial attempt index)
-	k      int    // operation index on that connection
-	kind   string // eof | closed | reset | partial | timeout | ueof (read) ; closed | reset | short | eof (write) ; car (write: server closes after replying)
+	dir  byte   // 'd' | 'r' | 'w'
+	conn int    // connection index (for 'd': dial attempt index)
+	k    int    // operation index on that connection
+	kind string // eof | closed | reset | partial | timeout | ueof (read) ; closed | reset | short | eof (write) ; car (write: server closes after replying)
 	// write, the read side of the connection stays healthy: hreset | hclosed (the Write fails, nothing is delivered) ;
 	// late (the request is delivered, the server replies, the reader holds the response, THEN the Write reports a reset)
 	timing string // read faults: "call" (fail when the Read is invoked) | "data" (fail when the data arrives)
@@ -116,10 +116,10 @@ type lcNet struct {
 	// transmissions are counted as REQUEST MESSAGES that the client starts to put on the wire: the byte stream
 	// the client hands to Write is cut into TTLV frames (8-byte header + padded length), whatever the number of
 	// Write calls used for one message.
-	blocked atomic.Int32  // dial attempts currently or formerly blocked by a "block" fault
-	frames atomic.Int64   // request frames started, all connections
-	whole  atomic.Int64   // request frames completed, all connections
-	txByID map[string]int // complete request frames by the identifier they carry
+	blocked atomic.Int32   // dial attempts currently or formerly blocked by a "block" fault
+	frames  atomic.Int64   // request frames started, all connections
+	whole   atomic.Int64   // request frames completed, all connections
+	txByID  map[string]int // complete request frames by the identifier they carry
 	// inWrite, if set, is called when a request frame carrying that identifier is handed to Write (before any byte
 	// is passed on); the Write continues when it returns.
 	inWrite func(id string, c *lcConn)
@@ -422,12 +422,12 @@ type lcSeen struct {
 
 // lcServer answers Activate(id) with the same id; DiscoverVersions with 1.4..1.0.
 type lcServer struct {
-	mu     sync.Mutex
-	wg     sync.WaitGroup
-	seen   []lcSeen
-	gates  map[string]chan struct{} // id -> the reply waits until the channel is closed
-	silent map[string]bool          // id -> never reply
-	onRecv func(id string, conn int) // called (outside the lock) when a request has been read
+	mu      sync.Mutex
+	wg      sync.WaitGroup
+	seen    []lcSeen
+	gates   map[string]chan struct{}  // id -> the reply waits until the channel is closed
+	silent  map[string]bool           // id -> never reply
+	onRecv  func(id string, conn int) // called (outside the lock) when a request has been read
 	allOpen bool
 }
 
@@ -706,8 +706,8 @@ func lcGoroutineDump() string {
 
 var (
 	lcPause     = 200 * time.Microsecond // lets a goroutine that has been released take its next step
-	lcWaitEvent = 2 * time.Second         // upper bound for an event that is expected to happen
-	lcCallLimit = 5 * time.Second         // a call that has not returned by then hangs
+	lcWaitEvent = 2 * time.Second        // upper bound for an event that is expected to happen
+	lcCallLimit = 5 * time.Second        // a call that has not returned by then hangs
 )
 
 func lcCalibrate(exchange time.Duration) {
